@@ -160,6 +160,8 @@ def run_property(prop_id, tier, seed, replay=None):
         print(f"INCONCLUSIVE property={prop_id} reason={';'.join(reasons)}")
         for d in dead:
             print("  worker died:", d["rc"], d["log_tail"][-600:].replace("\n", " | "))
+        for h_ in harness_errors[:1]:
+            print("  harness error:", ((h_.get("witness") or {}).get("traceback") or "")[-900:].replace("\n", " | "))
         rc = 2
 
     wall = time.time() - t0
